@@ -425,6 +425,10 @@ func runC10(p *core.Program, r *core.Report) {
 	chainRules(p, r, "R13", "C15", []string{"C15.R4"}, "nested type arguments are all visited and rewritten to their import names")
 	// round 8: the imports a literal registered are the ones its text uses
 	chainRules(p, r, "R16", "C03", []string{"C03.R12"}, "the text of every registering call ends up in the literal")
+	// round 9: the name a literal uses for a package is the name the import block declares for it; the type heading a
+	// composite literal is the printer's structural rendering of the value's type
+	chainRules(p, r, "R18", "C03", []string{"C03.R2"}, "the import block declares, for every registered path, the name the literal was rendered with")
+	chainRules(p, r, "R19", "C11", []string{"C11.R1"}, "array, slice and map types are rendered constructor first, element types through the printer")
 	c10R14(p, r, f, armOf)
 	c10R17(p, r, f, armOf)
 }
